@@ -227,7 +227,7 @@ func GenTaskWorld(ch *Choices, p IntegGen) *IntegWorld {
 		t.Cond = ch.Bool(p.CondProb, 100, "task-cond")
 		t.Allow = ch.Bool(p.AllowProb, 100, "task-allow")
 		if ch.Bool(p.ExportPct, 100, "export-as") {
-			t.ExportAs = "EXP_" + strings.ToUpper(genWord(ch, 5))
+			t.ExportAs = fmt.Sprintf("EXP_%s_%d", strings.ToUpper(genWord(ch, 5)), len(w.Tasks)) // unique per task
 		}
 		chain := ch.Bool(p.ChainProb, 100, "chain-output")
 		if chain {
